@@ -300,6 +300,10 @@ theorem c12_refuses (s : St) (h : s.closed = true) :
 (`c12_conns`: all stored connections end up closed) -/
 theorem gen_late_conn : Gen.Session.addConnRefusesAfterTeardown = true ∧ Gen.Session.closeSweepsEvenIfNoticeFails = true := by decide
 
+/-- closing a receive buffer wakes every parked reader (a `Signal` would wake one and leave the others parked for
+ever: "every blocked read ... returns"); runtime wake-ups themselves are the monitors' part (scenario c12many.go) -/
+theorem gen_wake_all : Gen.Session.streamPipeCloseWakesAll = true ∧ Gen.Session.dgramPipeCloseWakesAll = true := by decide
+
 /-- `Accept` does not look at the closed flag before the queue (it did before /repo's fix) -/
 theorem gen_accept : Gen.Session.acceptChecksClosedFirst = false := by decide
 
